@@ -15,9 +15,13 @@ CHECKS = {
                  "(safeIn_iff: exact for all type expressions; safeOut_iff_partial + machine-checked refutation of the "
                  "full statement = finding G1) and about the severity table EXTRACTED from changes.py; tied further by "
                  "exhaustive comparison of the real predicates with the compiled model on all type pairs of depth<=3/4 and "
-                 "by a schema-level oracle (generated schema + elementary edit + reverse edit) on the real diff_schema."),
+                 "by a schema-level oracle (generated schema + elementary edit + reverse edit) on the real diff_schema. "
+                 "diff_schema itself is modelled in Lean (Diff.lean) with theorems diff_refl (all schemas with unique names), "
+                 "removed/retyped elements reported as BREAKING, nobreaking_args_permissive (semantic, full), "
+                 "nobreaking_fields_strict_partial (list-free types; G1), min_severity_filters; the model is compared with the real "
+                 "diff_schema on every generated schema pair (multiset of class, severity, identifying attributes)."),
         "note": ("Trusted: Lean kernel; py2lean translator; reference semantics of type expressions on abstract values "
-                 "(accepts); generators. diff_schema's traversal itself is covered by the schema-level oracle, not by a theorem; "
+                 "(accepts); generators. diff_schema's traversal is hand-modelled and tied by correspondence (not re-translated); "
                  "'every operation valid on old stays valid' is explored only at type-position level."),
         "technique": "Lean 4 proof over source-translated predicates + exhaustive small-scope correspondence + edit oracle",
     },
